@@ -249,8 +249,10 @@ class Case:
             pl = a["pl"]
             data = payload_bytes(pl, j, self.fixture_docx)
             self.payloads[j] = (pl, data)
+            # an unknown type names its payload kind (the projection maps type strings back to tokens)
             mt = KNOWN_TYPES[pl] if a["known"] else rng.choice(
-                [f"application/x-c16-{pl}", "application/octet-stream", f"application/vnd.c16.{pl}+unknown"])
+                [f"application/x-c16-{pl}", f"application/vnd.c16.{pl}+unknown"]
+                + (["application/octet-stream"] if pl == "bin" else []))
             fn = None
             if a["fn"] != "none":
                 fn = f"{rng.choice(FN_STEMS[a['fn']])} {j}.{EXT[pl]}"
@@ -485,15 +487,23 @@ class Case:
         ser = self.m["ser"]
         if ser in ("hand", "handcrlf"):
             nl = "\r\n" if ser == "handcrlf" else "\n"
-            body = self._body_modern(policy.default.clone(linesep=nl, utf8=True, max_line_length=78))
+            body = self._body_modern(policy.default.clone(linesep=nl, max_line_length=78))
             bb = body.as_bytes()
             head = nl.join(ln.replace("\n", nl) for ln in self._hand_headers()) + nl
             return head.encode("utf-8") + bb
-        if ser in ("smtp", "smtputf8"):
-            pol = policy.SMTP if ser == "smtp" else policy.SMTPUTF8
-            msg = self._body_modern(pol)
+        if ser == "smtp":
+            msg = self._body_modern(policy.SMTP)
             self._api_headers(msg, legacy=False)
-            return msg.as_bytes(policy=pol)
+            return msg.as_bytes(policy=policy.SMTP)
+        if ser == "smtputf8":
+            # RFC 6532 message headers (raw UTF-8, written by the stdlib under policy SMTPUTF8) over a body
+            # generated under policy SMTP: MIME *parameters* stay RFC 2231 (raw 8-bit parameter values are
+            # outside the universe; the standard library's own parser does not decode them)
+            hdr = EmailMessage(policy=policy.SMTPUTF8)
+            self._api_headers(hdr, legacy=False)
+            hb = hdr.as_bytes()
+            hb = hb[:hb.index(b"\r\n\r\n") + 2]
+            return hb + self._body_modern(policy.SMTP).as_bytes()
         if ser == "compat32":
             msg = self._body_legacy()
             self._api_headers(msg, legacy=True)
